@@ -33,8 +33,9 @@ const (
 	DevRestart                   // restart a crashed server at a non-default instant
 	DevRand                      // random timeout extra = max instead of 0
 	DevSelect                    // coarse mode: take another ready case of a select (Go chooses at random)
+	DevStall                     // a StoreLogs hangs (slow disk) while the other threads of the server go on
 	DevAllNet    = DevDrop | DevDropResp | DevReorder | DevDup | DevLate
-	DevAll       = DevAllNet | DevTimer | DevCrash | DevStore | DevStepEarly | DevRestart | DevSelect
+	DevAll       = DevAllNet | DevTimer | DevCrash | DevStore | DevStepEarly | DevRestart | DevSelect | DevStall
 )
 
 // ---------------------------------------------------------------------------
@@ -381,7 +382,7 @@ func (w *World) Answer(node int, op string, mayFail bool) Fault {
 	costs := []int{0, 1, 1, 1}
 	if !mayFail || !n.booted {
 		labels, costs = labels[:3], costs[:3]
-	} else if w.stallNode < 0 && !w.stallUsed && strings.HasPrefix(op, "StoreLogs") && !w.sc.Timed && !w.timedNow {
+	} else if w.sc.Devs&DevStall != 0 && w.stallNode < 0 && !w.stallUsed && strings.HasPrefix(op, "StoreLogs") && !w.sc.Timed && !w.timedNow {
 		// a slow disk: the write hangs (and with it the thread that issued it - the main loop) while the rest of
 		// the server and the rest of the world go on; it completes normally once the environment releases it
 		labels = append(labels, fmt.Sprintf("n%d %s stall", node, op))
